@@ -313,7 +313,7 @@ def oracle(case):
     if msg:
         return 'result not well formed: ' + msg
     try:
-        got = oc.get_truth_table()
+        got = [list(r) for r in oc.get_truth_table()]
     except Exception as e:  # noqa: BLE001
         return f'result cannot be evaluated: {type(e).__name__}'
     if got != semoracle.truth_table_of(dump):
